@@ -3,12 +3,17 @@ package eng
 import (
 	"bufio"
 	"bytes"
+	"compress/flate"
+	"compress/zlib"
+	"io"
 	"encoding/hex"
 	"fmt"
 	"go/constant"
 	"go/token"
 	"go/types"
+	stdhtml "html"
 	"math"
+	"path"
 	"regexp"
 	"sort"
 	"strconv"
@@ -32,8 +37,8 @@ type (
 	EStruct struct{ F []any }
 	// ESlice is a slice value: the locations it spans (shared with the slices it was cut from). C is its capacity
 	// where that is larger than its length (the result of make with a capacity, or of cutting a longer slice): an
-	// append that fits writes into the shared locations, as the language says; an append that does not fit gives a
-	// slice of exactly the new length (the growth policy of the runtime is not modelled, so nothing can rely on it).
+	// append that fits writes into the shared locations, as the language says; an append that does not fit gives new
+	// storage of twice the old capacity (below 256 elements; never more room than the runtime gives).
 	ESlice struct {
 		L []*ELoc
 		C int
@@ -80,6 +85,16 @@ type mapIter struct {
 type EBytesReader struct {
 	Data []byte
 	Pos  int
+	// Tail, when set, is the error a read at the end of the data gives instead of io.EOF (a decompressor whose input
+	// is damaged after the bytes it could produce).
+	Tail *EErr
+}
+
+func (r *EBytesReader) endErr() *EErr {
+	if r.Tail != nil {
+		return r.Tail
+	}
+	return ErrEOF
 }
 
 // poison marks a value the evaluator could not compute while running a package initialiser tolerantly.
@@ -866,7 +881,7 @@ func (ev *Evaluator) callWith(fn *ssa.Function, args []any, free []any, depth in
 						frozen[a] = v
 					}
 					var fv any
-					if okAll && cc.StaticCallee() == nil && !cc.IsInvoke() {
+					if _, isBuiltin := cc.Value.(*ssa.Builtin); okAll && cc.StaticCallee() == nil && !cc.IsInvoke() && !isBuiltin {
 						v, e := val(cc.Value)
 						if e != nil {
 							okAll = false
@@ -887,11 +902,13 @@ func (ev *Evaluator) callWith(fn *ssa.Function, args []any, free []any, depth in
 							}, depth)
 							return e
 						})
+					} else {
+						return nil, false, notEval("deferred call with arguments that cannot be evaluated")
 					}
 				case *ssa.RunDefers:
 					for i := len(defers) - 1; i >= 0; i-- {
-						if e := defers[i](); e != nil && e.Panic {
-							return nil, false, e
+						if e := defers[i](); e != nil {
+							return nil, false, e // a deferred call that cannot be evaluated ends the evaluation too
 						}
 					}
 					defers = nil
@@ -1149,6 +1166,9 @@ func binop(x *ssa.BinOp, l, r any) (any, *EvalError) {
 		}
 	case nil:
 		rn := r == nil || isEmptyNilSlice(r)
+		if br, ok := r.(*EBytesReader); ok {
+			rn = br == nil
+		}
 		if p, ok := r.(*EPtr); ok && p == nil {
 			rn = true
 		}
@@ -1218,6 +1238,14 @@ func binop(x *ssa.BinOp, l, r any) (any, *EvalError) {
 		case token.NEQ:
 			return !same, nil
 		}
+	}
+	// a stand-in object (a reader over known bytes, a scanner) compared with nil or with itself
+	if _, isReader := l.(*EBytesReader); isReader && (x.Op == token.EQL || x.Op == token.NEQ) {
+		same := l == r
+		if x.Op == token.EQL {
+			return same, nil
+		}
+		return !same, nil
 	}
 	return nil, notEval("%T %s %T", l, x.Op, r)
 }
@@ -1388,7 +1416,15 @@ func (ev *Evaluator) callCommon(cc *ssa.CallCommon, val func(ssa.Value) (any, *E
 				}
 				return &ESlice{L: full, C: dst.capOf()}, nil
 			}
-			out := &ESlice{L: make([]*ELoc, 0, len(dst.L)+len(vals))}
+			// it does not fit: new storage. The runtime gives small slices room to grow (it doubles a capacity below
+			// 256 and rounds up to a size class); the model gives the doubling and never more than the runtime does,
+			// so two slices appended to from one short base share the spare room here exactly when they do there
+			need := len(dst.L) + len(vals)
+			newCap := need
+			if oc := dst.capOf(); oc > 0 && oc < 256 && need <= 2*oc {
+				newCap = 2 * oc
+			}
+			out := &ESlice{L: make([]*ELoc, 0, newCap), C: newCap}
 			out.L = append(out.L, dst.L...)
 			for _, v := range vals {
 				out.L = append(out.L, &ELoc{v})
@@ -1719,7 +1755,101 @@ func (ev *Evaluator) callFunction(g *ssa.Function, args []any, depth int) (any, 
 	}
 	switch FuncName(g) {
 	case "fmt.Errorf", "errors.New":
-		return &EErr{}, nil
+		msg, _ := args[0].(string)
+		return &EErr{Msg: msg}, nil
+	case "html.UnescapeString", "golang.org/x/net/html.UnescapeString":
+		if sv, ok := args[0].(string); ok {
+			return stdhtml.UnescapeString(sv), nil
+		}
+	case "html.EscapeString", "golang.org/x/net/html.EscapeString":
+		if sv, ok := args[0].(string); ok {
+			return stdhtml.EscapeString(sv), nil
+		}
+	case "compress/zlib.NewReader", "compress/flate.NewReader":
+		if r, ok := args[0].(*EBytesReader); ok {
+			// the library's decompressor, run on the known bytes: what it produces, and the error it ends with
+			var zr io.Reader
+			if FuncName(g) == "compress/zlib.NewReader" {
+				z, err := zlib.NewReader(bytes.NewReader(r.Data[r.Pos:]))
+				if err != nil {
+					return ETuple{nil, &EErr{Msg: err.Error()}}, nil
+				}
+				zr = z
+			} else {
+				zr = flate.NewReader(bytes.NewReader(r.Data[r.Pos:]))
+			}
+			out, err := io.ReadAll(io.LimitReader(zr, 1<<22))
+			res := &EBytesReader{Data: out}
+			if err != nil {
+				res.Tail = &EErr{Msg: err.Error()}
+				if err == io.ErrUnexpectedEOF {
+					res.Tail = ErrUnexpectedEOF
+				}
+			}
+			if FuncName(g) == "compress/zlib.NewReader" {
+				return ETuple{res, nil}, nil
+			}
+			return res, nil
+		}
+	case "io.ReadAll":
+		if r, ok := args[0].(*EBytesReader); ok {
+			rest := r.Data[r.Pos:]
+			r.Pos = len(r.Data)
+			var e any
+			if r.Tail != nil {
+				e = r.Tail
+			}
+			return ETuple{BytesOf(rest), e}, nil
+		}
+	case "io.LimitReader":
+		if r, ok := args[0].(*EBytesReader); ok {
+			n, _ := args[1].(int64)
+			rest := r.Data[r.Pos:]
+			if n < 0 {
+				n = 0
+			}
+			if int64(len(rest)) > n {
+				return &EBytesReader{Data: rest[:n]}, nil
+			}
+			return &EBytesReader{Data: rest, Tail: r.Tail}, nil
+		}
+	case "io.Copy":
+		if r, ok := args[1].(*EBytesReader); ok {
+			if dst, ok := args[0].(*EPtr); ok && dst != nil {
+				if home, ok := dst.Get().(*EStruct); ok {
+					if ev.bufs == nil {
+						ev.bufs = map[*EStruct]*[]byte{}
+					}
+					buf := ev.bufs[home]
+					if buf == nil {
+						buf = new([]byte)
+						ev.bufs[home] = buf
+					}
+					rest := r.Data[r.Pos:]
+					r.Pos = len(r.Data)
+					*buf = append(*buf, rest...)
+					var e any
+					if r.Tail != nil {
+						e = r.Tail
+					}
+					return ETuple{int64(len(rest)), e}, nil
+				}
+			}
+		}
+	case "path/filepath.Ext", "path.Ext":
+		if sv, ok := args[0].(string); ok {
+			return path.Ext(sv), nil
+		}
+	case "path/filepath.Base", "path.Base":
+		if sv, ok := args[0].(string); ok {
+			return path.Base(sv), nil
+		}
+	case "golang.org/x/net/html.Parse":
+		if r, ok := args[0].(*EBytesReader); ok {
+			data := r.Data[r.Pos:]
+			r.Pos = len(r.Data)
+			return htmlTree(g.Signature.Results().At(0).Type(), data)
+		}
 	case "bytes.NewReader":
 		if sl, ok := args[0].(*ESlice); ok {
 			var data []byte
@@ -1728,6 +1858,61 @@ func (ev *Evaluator) callFunction(g *ssa.Function, args []any, depth int) (any, 
 				data = append(data, byte(b))
 			}
 			return &EBytesReader{Data: data}, nil
+		}
+	case "fmt.Sscanf":
+		// one integer verb: Sscanf(s, "%d", &n)
+		if sv, ok := args[0].(string); ok && len(args) == 3 {
+			if f, _ := args[1].(string); f == "%d" {
+				if vs, ok := args[2].(*ESlice); ok && len(vs.L) == 1 {
+					target := vs.L[0].V
+					if ifc, ok := target.(*EIface); ok {
+						target = ifc.V
+					}
+					if p, ok := target.(*EPtr); ok && p != nil {
+						end := 0
+						for end < len(sv) && (sv[end] >= '0' && sv[end] <= '9' || end == 0 && (sv[end] == '-' || sv[end] == '+')) {
+							end++
+						}
+						n, err := strconv.ParseInt(sv[:end], 10, 64)
+						if err != nil {
+							return ETuple{int64(0), &EErr{Msg: "expected integer"}}, nil
+						}
+						p.Set(n)
+						return ETuple{int64(1), nil}, nil
+					}
+				}
+			}
+		}
+	case "io.ReadFull":
+		if r, ok := args[0].(*EBytesReader); ok {
+			if buf, ok := args[1].(*ESlice); ok {
+				n := 0
+				for n < len(buf.L) && r.Pos < len(r.Data) {
+					buf.L[n].V = int64(r.Data[r.Pos])
+					n++
+					r.Pos++
+				}
+				switch {
+				case n == len(buf.L):
+					return ETuple{int64(n), nil}, nil
+				case n == 0:
+					return ETuple{int64(0), ErrEOF}, nil
+				}
+				return ETuple{int64(n), ErrUnexpectedEOF}, nil
+			}
+		}
+	case "io.NewSectionReader":
+		if r, ok := args[0].(*EBytesReader); ok {
+			off, _ := args[1].(int64)
+			n, _ := args[2].(int64)
+			if off < 0 || off > int64(len(r.Data)) {
+				off = int64(len(r.Data))
+			}
+			end := off + n
+			if n < 0 || end > int64(len(r.Data)) {
+				end = int64(len(r.Data))
+			}
+			return &EBytesReader{Data: r.Data[off:end]}, nil
 		}
 	case "strings.NewReader":
 		if sv, ok := args[0].(string); ok {
@@ -2419,7 +2604,7 @@ func readerMethod(r *EBytesReader, method string, args []any) (any, *EvalError, 
 			if len(buf.L) == 0 {
 				return ETuple{int64(0), nil}, nil, true
 			}
-			return ETuple{int64(0), ErrEOF}, nil, true
+			return ETuple{int64(0), r.endErr()}, nil, true
 		}
 		n := 0
 		for n < len(buf.L) && r.Pos < len(r.Data) {
@@ -2428,6 +2613,8 @@ func readerMethod(r *EBytesReader, method string, args []any) (any, *EvalError, 
 			r.Pos++
 		}
 		return ETuple{int64(n), nil}, nil, true
+	case "Close":
+		return nil, nil, true
 	case "ReadByte":
 		if r.Pos >= len(r.Data) {
 			return ETuple{int64(0), ErrEOF}, nil, true
@@ -2502,4 +2689,9 @@ func bytesOfVal(v any) ([]byte, bool) {
 		out = append(out, byte(b))
 	}
 	return out, true
+}
+
+// ReaderMethod answers Read, Seek, ReadAt and ReadByte on a reader over known bytes (for hooks that stand a file in).
+func ReaderMethod(r *EBytesReader, method string, args []any) (any, *EvalError, bool) {
+	return readerMethod(r, method, args)
 }
